@@ -324,6 +324,17 @@ func (t *terminal) handleCmdCSI(r escapeReader) bool {
 		}
 	}
 
+	if (b >= 0x20 && b <= 0x2f && b != '%') || (b >= 0x3a && b <= 0x3f) {
+		// Sub-parameters, further private markers or intermediate bytes: not
+		// supported, so skip to the final byte and ignore the sequence.
+		for b < 0x40 || b > 0x7e {
+			if b, err = r.ReadByte(); err != nil {
+				return false
+			}
+		}
+		return true
+	}
+
 	params := paramStore[:paramCount]
 
 	if prefix == 0 {
